@@ -120,8 +120,15 @@ func (g *gen) structDecl(maxDepth int) *tdecl {
 	nf := 1 + g.r.Intn(7)
 	for i := 0; i < nf; i++ {
 		fn := g.name("F")
-		if g.r.Intn(5) == 0 {
+		switch g.r.Intn(12) {
+		case 0, 1:
 			fn = strings.ToLower(fn[:1]) + fn[1:]
+		case 2:
+			fn = "_" + strings.ToLower(fn) // an ordinary (unexported) field whose name starts with an underscore
+		case 3:
+			fn = "Ünï" + fn
+		case 4:
+			fn = "_" // a blank field (padding, a no-unkeyed-literals guard)
 		}
 		var ft string
 		switch g.r.Intn(14) {
@@ -331,6 +338,9 @@ func c17fill(r *c17rng, v reflect.Value, depth int) {
 			return
 		}
 		for i := 0; i < v.NumField(); i++ {
+			if v.Type().Field(i).Name == "_" {
+				continue // a blank field cannot be named, hence neither set nor copied: it stays zero
+			}
 			f := v.Field(i)
 			if !f.CanSet() {
 				f = reflect.NewAt(f.Type(), unsafe.Pointer(f.UnsafeAddr())).Elem()
